@@ -44,18 +44,18 @@ func determineResponseContentType(explicitHeaders map[string][]string, r *http.R
 }
 
 func writeHeaders(w http.ResponseWriter, headers map[string][]string) {
-	if len(headers) == 0 {
-		headers = map[string][]string{
-			// Stay with application/json (not application/graphql-response+json)
-			// as it is not an actively supported protocol for now
-			"Content-Type": {"application/json"},
-		}
-	}
-
 	for key, values := range headers {
 		for _, value := range values {
 			w.Header().Add(key, value)
 		}
+	}
+
+	if w.Header().Get("Content-Type") == "" {
+		// The configured headers name no content type (or there are none): the
+		// body is still JSON. Stay with application/json (not
+		// application/graphql-response+json) as it is not an actively supported
+		// protocol for now
+		w.Header().Set("Content-Type", "application/json")
 	}
 }
 
